@@ -568,6 +568,11 @@ func (a *Assembler) AssembleWithTimestamp(netFlow gopacket.Flow, t *layers.TCP, 
 		conn.lastSeen = timestamp
 	}
 	seq, bytes := Sequence(t.Seq), t.Payload
+	if t.SYN && conn.nextSeq != invalidSequence {
+		// A SYN occupies one sequence number: the payload of a retransmitted
+		// SYN starts one past t.Seq, as for the first SYN below.
+		seq = seq.Add(1)
+	}
 	if conn.nextSeq == invalidSequence {
 		if t.SYN {
 			if *debugLog {
